@@ -151,3 +151,162 @@ Example siblings_nonvacuous :
 Proof.
   eexists. split; [vm_compute; left; reflexivity|]. apply sat_epsb_spec. vm_compute. reflexivity.
 Qed.
+
+(* ------------------------------------------------------------------ fixed-rectangle clusters (RectangularCluster(rectIndex)) *)
+
+(* the two equalities of dimension d hold iff the cluster box [v cv, v (cv+1)] IS the container rectangle placed at its
+   variable's value *)
+Theorem fixed_rect_cluster_sound_thm v d cv ri rects :
+  Forall (sat v) (gen_fixed_rect d cv ri rects) <->
+  box_is_rect d (v cv) (v (S cv)) (moved d (nth ri rects rect0) (v ri)).
+Proof.
+  unfold gen_fixed_rect, box_is_rect. rewrite rmin_moved_same, rmax_moved_same.
+  pose proof (Qred_correct (rlen d (nth ri rects rect0) / 2)) as E.
+  split.
+  - intros H. inversion H as [|? ? S1 H']; subst. inversion H' as [|? ? S2 _]; subst.
+    unfold sat in S1, S2. cbn [sl sr sgap seqy] in S1, S2. rewrite E in S1, S2. split; lra.
+  - intros [H1 H2]. apply Forall_cons; [|apply Forall_cons; [|apply Forall_nil]]; unfold sat; cbn [sl sr sgap seqy]; rewrite E; lra.
+Qed.
+
+Theorem fixed_rect_cluster_eps_thm eps v d cv ri rects :
+  Forall (sat_eps eps v) (gen_fixed_rect d cv ri rects) <->
+  box_is_rect_eps eps d (v cv) (v (S cv)) (moved d (nth ri rects rect0) (v ri)).
+Proof.
+  unfold gen_fixed_rect, box_is_rect_eps. rewrite rmin_moved_same, rmax_moved_same.
+  pose proof (Qred_correct (rlen d (nth ri rects rect0) / 2)) as E.
+  split.
+  - intros H. inversion H as [|? ? S1 H']; subst. inversion H' as [|? ? S2 _]; subst.
+    destruct S1 as [A1 B1]. destruct S2 as [A2 B2]. cbn [sl sr sgap seqy] in *.
+    specialize (B1 eq_refl). specialize (B2 eq_refl). rewrite E in A1, B1, A2, B2. repeat split; lra.
+  - intros (H1 & H2 & H3 & H4).
+    apply Forall_cons; [|apply Forall_cons; [|apply Forall_nil]]; unfold sat_eps; cbn [sl sr sgap seqy]; rewrite E;
+      (split; [|intros _]); lra.
+Qed.
+
+(* with the containment constraints of the members: every member rectangle, inflated by the cluster's padding, lies inside
+   the CONTAINER RECTANGLE in dimension d (exactly) *)
+Theorem members_inside_fixed_rect_thm v d cv ri pad members rects children :
+  Forall (sat v) (gen_fixed_rect d cv ri rects) ->
+  Forall (sat v) (gen_containment d cv pad members rects children) ->
+  forall id, In id members ->
+    inside_rect_d d 0 pad (moved d (nth ri rects rect0) (v ri)) (moved d (nth id rects rect0) (v id)).
+Proof.
+  intros HF HC id Hin.
+  apply fixed_rect_cluster_sound_thm in HF. destruct HF as [F1 F2].
+  assert (HC' : Forall (sat_eps 0 v) (gen_containment d cv pad members rects children)).
+  { apply Forall_forall. intros c Hc. rewrite Forall_forall in HC. specialize (HC c Hc).
+    unfold sat in HC. unfold sat_eps. destruct (seqy c); (split; [|intros E0; try discriminate E0]); lra. }
+  destruct (gen_containment_members 0 v d cv pad members rects children HC' id Hin) as [M1 M2].
+  unfold inside_rect_d. rewrite !rmin_moved_same, !rmax_moved_same in *. split; lra.
+Qed.
+
+(* ... when the solver satisfies the constraints only to within eps (C01): inside up to 2*eps *)
+Theorem members_inside_fixed_rect_eps_thm eps v d cv ri pad members rects children :
+  Forall (sat_eps eps v) (gen_fixed_rect d cv ri rects) ->
+  Forall (sat_eps eps v) (gen_containment d cv pad members rects children) ->
+  forall id, In id members ->
+    inside_rect_d d (2 * eps) pad (moved d (nth ri rects rect0) (v ri)) (moved d (nth id rects rect0) (v id)).
+Proof.
+  intros HF HC id Hin.
+  apply fixed_rect_cluster_eps_thm in HF. destruct HF as (F1 & F2 & F3 & F4).
+  destruct (gen_containment_members eps v d cv pad members rects children HC id Hin) as [M1 M2].
+  unfold inside_rect_d. rewrite !rmin_moved_same, !rmax_moved_same in *. split; lra.
+Qed.
+
+(* both dimensions, on the moved rectangle list: the form the V-run checker decides.  v x / v y are the solutions of the two
+   dimensions (the rectangle variables are shared by index, the cluster variables have the same ids in both dimensions) *)
+Theorem members_inside_fixed_rect_2d_thm eps vx vy cv ri pad members rects chx chy :
+  (ri < length rects)%nat -> (forall m, In m members -> (m < length rects)%nat) ->
+  Forall (sat_eps eps vx) (gen_fixed_rect DX cv ri rects) ->
+  Forall (sat_eps eps vy) (gen_fixed_rect DY cv ri rects) ->
+  Forall (sat_eps eps vx) (gen_containment DX cv pad members rects chx) ->
+  Forall (sat_eps eps vy) (gen_containment DY cv pad members rects chy) ->
+  members_inside_rect (2 * eps) pad (move_all DY (move_all DX rects vx) vy) ri members.
+Proof.
+  intros Hri Hm FX FY CX CY m Hin.
+  assert (L : length (move_all DX rects vx) = length rects).
+  { unfold move_all. apply move_from_length. }
+  pose proof (members_inside_fixed_rect_eps_thm eps vx DX cv ri pad members rects chx FX CX m Hin) as [X1 X2].
+  pose proof (members_inside_fixed_rect_eps_thm eps vy DY cv ri pad members rects chy FY CY m Hin) as [Y1 Y2].
+  specialize (Hm m Hin).
+  rewrite !nth_move_all by (rewrite ?L; auto).
+  unfold inside_rect, inside_rect_d in *.
+  assert (A1 : forall r a c, rmin DX (moved DY (moved DX r a) c) == a - rlen DX r / 2).
+  { intros r a c. rewrite (rmin_moved_other DY (moved DX r a) c : rmin DX _ = _). apply rmin_moved_same. }
+  assert (A2 : forall r a c, rmax DX (moved DY (moved DX r a) c) == a + rlen DX r / 2).
+  { intros r a c. rewrite (rmax_moved_other DY (moved DX r a) c : rmax DX _ = _). apply rmax_moved_same. }
+  assert (A3 : forall r a c, rmin DY (moved DY (moved DX r a) c) == c - rlen DY r / 2).
+  { intros r a c. rewrite rmin_moved_same. rewrite (rlen_moved DX DY r a). reflexivity. }
+  assert (A4 : forall r a c, rmax DY (moved DY (moved DX r a) c) == c + rlen DY r / 2).
+  { intros r a c. rewrite rmax_moved_same. rewrite (rlen_moved DX DY r a). reflexivity. }
+  rewrite !A1, !A2, !A3, !A4. rewrite !rmin_moved_same in X1, Y1. rewrite !rmax_moved_same in X2, Y2.
+  repeat split; lra.
+Qed.
+
+(* refutation: WITHOUT the last equality (only rect + half <= boundaryVar+1) the members are NOT confined to the container
+   rectangle: the weakened list together with the member's containment constraints has a solution with the member wholly
+   outside the container on the max side.  (This is what dropping the `true` argument of the fourth SeparationConstraint in
+   generateFixedRectangleConstraints does in the Y dimension.) *)
+Definition fxr_rects : list rect := [mkRect (-(100)) 100 (-(50)) 50; mkRect (-(15)) 15 5 35; mkRect (-(15)) 15 75 105].
+(* variables: 0 container, 1 child, 2 outside node; cluster boundary 3,4 *)
+Definition fxr_bad_v : val := lv [0; 200; 90; (-(50)); 215].
+Theorem fixed_rect_weak_max_refuted :
+  exists v d cv ri pad members rects,
+    Forall (sat v) (gen_fixed_rect_weak_max d cv ri rects ++ gen_containment d cv pad members rects []) /\
+    exists id, In id members /\
+      ~ inside_rect_d d 0 pad (moved d (nth ri rects rect0) (v ri)) (moved d (nth id rects rect0) (v id)) /\
+      rmax d (moved d (nth ri rects rect0) (v ri)) <= rmin d (moved d (nth id rects rect0) (v id)).
+Proof.
+  exists fxr_bad_v, DY, 3%nat, 0%nat, (mkBox 0 0 0 0), [1%nat], fxr_rects. split.
+  - repeat constructor; unfold sat; cbn; apply Qle_bool_iff || apply Qeq_bool_iff; reflexivity.
+  - exists 1%nat. split; [left; reflexivity|]. split.
+    + unfold inside_rect_d. intros [_ H]. revert H. cbn. unfold rlen. cbn. intros H.
+      apply Qle_bool_iff in H. discriminate H.
+    + cbn. unfold rlen. cbn. apply Qle_bool_iff. reflexivity.
+Qed.
+(* ... while the real list excludes exactly that valuation *)
+Example fixed_rect_excludes_bad : ~ Forall (sat fxr_bad_v) (gen_fixed_rect DY 3 0 fxr_rects).
+Proof.
+  intros H. apply fixed_rect_cluster_sound_thm in H. destruct H as [_ H]. revert H.
+  cbn. unfold rlen. cbn. intros H. apply Qeq_bool_iff in H. discriminate H.
+Qed.
+
+(* the checker used on real layouts *)
+Lemma inside_rect_db_spec d t pad c m : inside_rect_db d t pad c m = true <-> inside_rect_d d t pad c m.
+Proof. unfold inside_rect_db, inside_rect_d. rewrite andb_true_iff, !Qleb_spec. tauto. Qed.
+Theorem inside_rectb_correct t pad c m : inside_rectb t pad c m = true <-> inside_rect t pad c m.
+Proof. unfold inside_rectb, inside_rect. rewrite andb_true_iff, !inside_rect_db_spec. tauto. Qed.
+Theorem members_inside_rectb_correct t pad rects ci members :
+  members_inside_rectb t pad rects ci members = true <-> members_inside_rect t pad rects ci members.
+Proof.
+  unfold members_inside_rectb, members_inside_rect. rewrite forallb_forall. split.
+  - intros H m Hm. apply inside_rectb_correct. auto.
+  - intros H m Hm. apply inside_rectb_correct. auto.
+Qed.
+
+(* non-vacuity: the demo scene of the fixed-rectangle family: container 200x100 at (0,0) = node 0, child 30x30 = node 1;
+   cluster boundary variables 3,4; a solution of the Y dimension with the child touching the max-Y wall *)
+Definition fxr_good_v : val := lv [0; 35; 65; (-(50)); 50].
+Example fixed_rect_nonvacuous :
+  Forall (sat fxr_good_v) (gen_fixed_rect DY 3 0 fxr_rects) /\
+  Forall (sat fxr_good_v) (gen_containment DY 3 (mkBox 0 0 0 0) [1%nat] fxr_rects []).
+Proof.
+  split; repeat constructor; unfold sat; cbn; apply Qle_bool_iff || apply Qeq_bool_iff; reflexivity.
+Qed.
+Definition fxr_good_vx : val := lv [0; 35; 65; (-(100)); 100].
+(* the hypotheses of members_inside_fixed_rect_2d_thm are satisfiable *)
+Example fixed_rect_eps_nonvacuous :
+  Forall (sat_eps (1 # 1000) fxr_good_vx) (gen_fixed_rect DX 3 0 fxr_rects) /\
+  Forall (sat_eps (1 # 1000) fxr_good_v) (gen_fixed_rect DY 3 0 fxr_rects) /\
+  Forall (sat_eps (1 # 1000) fxr_good_vx) (gen_containment DX 3 (mkBox 0 0 0 0) [1%nat] fxr_rects []) /\
+  Forall (sat_eps (1 # 1000) fxr_good_v) (gen_containment DY 3 (mkBox 0 0 0 0) [1%nat] fxr_rects []) /\
+  (0 < length fxr_rects)%nat.
+Proof.
+  assert (H : forall v l, forallb (sat_epsb (1 # 1000) v) l = true -> Forall (sat_eps (1 # 1000) v) l).
+  { intros v l Hl. apply Forall_forall. intros c Hc. apply sat_epsb_spec. rewrite forallb_forall in Hl. auto. }
+  repeat split; try (apply H; vm_compute; reflexivity). cbn. repeat constructor.
+Qed.
+Example members_inside_rectb_nonvacuous :
+  members_inside_rectb (1 # 1000) (mkBox 0 0 0 0) (move_all DY fxr_rects fxr_good_v) 0 [1%nat] = true /\
+  members_inside_rectb (1 # 1000) (mkBox 0 0 0 0) (move_all DY fxr_rects fxr_bad_v) 0 [1%nat] = false.
+Proof. split; vm_compute; reflexivity. Qed.
